@@ -22,6 +22,7 @@ type serialCase struct {
 	Via     string `json:"via"`
 	HoldC   int    `json:"holdc"`
 	HoldI   int    `json:"holdi"`
+	Flavour string `json:"flavour"`
 }
 type serialEv struct {
 	Ev    string      `json:"ev"`
@@ -89,7 +90,10 @@ func runSerialCollect(sc int, c *serialCase, emit func(serialEv)) {
 			diam.NewConn(conns[k], "10.0.0.2:3868", mux, dict.Default)
 		}
 	}
-	msg := func(k, i int) []byte { return appMsg(272, 4, true, uint32(k*100+i)) }
+	msg := func(k, i int) []byte {
+		req := c.Flavour != "ans" && !(c.Flavour == "mixed" && i%2 == 0)
+		return appMsg(272, 4, req, uint32(k*100+i))
+	}
 	switch c.Pattern {
 	case "burst":
 		for k := 1; k <= c.Conns; k++ {
